@@ -123,7 +123,25 @@ def roundF64Nat (n : Nat) : Nat :=
     let half := 2 ^ (e - 1)
     (if rem > half || (rem == half && q % 2 == 1) then q + 1 else q) <<< e
 
-def roundF64 (n : Int) : Int := if n < 0 then -(roundF64Nat n.natAbs : Int) else (roundF64Nat n.natAbs : Int)
+def numDigits (n : Nat) : Nat := (Nat.toDigits 10 n).length
+
+/-- `v` rounded to `d` significant decimal digits (nearest, ties to even). -/
+def roundDigits (v d : Nat) : Nat :=
+  if numDigits v ≤ d then v
+  else
+    let p := 10 ^ (numDigits v - d)
+    (if 2 * (v % p) > p || (2 * (v % p) == p && (v / p) % 2 == 1) then v / p + 1 else v / p) * p
+
+/-- `json.Marshal` of a `float64` holding the integer `v`: the shortest decimal that reads back as
+the same `float64` (`strconv.AppendFloat(…, 'f', -1, 64)`), which `Unmarshal` then parses as an integer. -/
+def shortestDec (v : Nat) : Nat :=
+  ((List.range 17).findSome? (fun i => if roundF64Nat (roundDigits v (i + 1)) == v then some (roundDigits v (i + 1)) else none)).getD v
+
+/-- An integer after `int64 → JSON → float64 → JSON`: unchanged up to 2^53, beyond that the
+shortest decimal of the nearest `float64`. -/
+def roundF64 (n : Int) : Int :=
+  if n.natAbs ≤ two53 then n
+  else if n < 0 then -(shortestDec (roundF64Nat n.natAbs) : Int) else (shortestDec (roundF64Nat n.natAbs) : Int)
 
 def viaFloat : J → J
   | .num n => .num (roundF64 n)
